@@ -654,8 +654,8 @@ func (g *gen) instr(in ssa.Instruction, st State, reach string) string {
 	case *ssa.Alloc:
 		g.alloc(x, st, reach)
 	case *ssa.Store:
-		addr := g.val(x.Addr)
-		v := g.val(x.Val)
+		addr := g.redirect(g.val(x.Addr))
+		v := g.materialise(g.val(x.Val), st)
 		loc := g.derefLoc(addr, x.Addr.Type(), st, reach, x.Pos())
 		g.storeLoc(st, loc, v, x.Val.Type())
 	case *ssa.FieldAddr:
@@ -890,8 +890,63 @@ func (g *gen) storeLoc(st State, l *Loc, v Val, vt types.Type) {
 	g.locWrite(st, l, v.T)
 }
 
+func locKey(l *Loc) string {
+	var b strings.Builder
+	b.WriteString(l.Comp)
+	for _, i := range l.Idx {
+		b.WriteString("|" + i)
+	}
+	for _, p := range l.Path {
+		fmt.Fprintf(&b, "/%s.%d.%s", p.structSort, p.field, p.index)
+	}
+	return b.String()
+}
+
+// redirect: an interior location that was materialised is accessed through its object from then on.
+func (g *gen) redirect(v Val) Val {
+	if v.L != nil {
+		if r, ok := g.materialised[locKey(v.L)]; ok {
+			return Val{T: r, S: "Int", GoT: v.GoT}
+		}
+	}
+	return v
+}
+
+// materialise turns an interior pointer (address of a struct stored by value inside another object)
+// into a first-class reference when it escapes into the heap, a map, a call or a result: a fresh
+// object receives a copy of the location's current contents, and later accesses through the same
+// interior location are redirected to that object (so aliasing after the escape is exact).
+func (g *gen) materialise(v Val, st State) Val {
+	if v.L == nil {
+		return v
+	}
+	if r := g.redirect(v); r.L == nil {
+		return r
+	}
+	su, ok := v.L.GoT.Underlying().(*types.Struct)
+	if !ok || isTimeTime(v.L.GoT) || v.L.Comp == "" {
+		g.ctx.note("escaping interior pointer to a non-struct location (unknown pointer)")
+		hv := g.havocVal("interior", types.NewPointer(v.L.GoT), st, "true")
+		g.ctx.assume("(not (= " + hv.T + " 0))")
+		return Val{T: hv.T, S: "Int", GoT: v.GoT}
+	}
+	cur := g.loadLoc(st, v.L)
+	r := g.allocRef(st)
+	ss := g.ctx.sortOf(v.L.GoT)
+	for i := 0; i < su.NumFields(); i++ {
+		comp := g.ctx.fieldComp(ss, su, i)
+		g.locWrite(st, &Loc{Comp: comp, Idx: []string{r}}, "("+g.accessor(ss, i)+" "+cur+")")
+	}
+	if g.materialised == nil {
+		g.materialised = map[string]string{}
+	}
+	g.materialised[locKey(v.L)] = r
+	g.ctx.note("interior pointer materialised as an object")
+	return Val{T: r, S: "Int", GoT: v.GoT}
+}
+
 func (g *gen) fieldAddr(x *ssa.FieldAddr, st State, reach string) {
-	base := g.val(x.X)
+	base := g.redirect(g.val(x.X))
 	pt := x.X.Type().Underlying().(*types.Pointer)
 	stt := pt.Elem().Underlying().(*types.Struct)
 	ss := g.ctx.sortOf(pt.Elem())
@@ -943,7 +998,7 @@ func (g *gen) indexAddr(x *ssa.IndexAddr, st State, reach string) {
 }
 
 func (g *gen) unop(x *ssa.UnOp, st State, reach string) {
-	v := g.val(x.X)
+	v := g.redirect(g.val(x.X))
 	switch x.Op {
 	case token.MUL: // load
 		loc := g.derefLoc(v, x.X.Type(), st, reach, x.Pos())
@@ -1316,7 +1371,7 @@ func (g *gen) lookup(x *ssa.Lookup, st State, reach string) {
 func (g *gen) mapUpdate(x *ssa.MapUpdate, st State, reach string) {
 	mv := g.val(x.Map)
 	kv := g.val(x.Key)
-	vv := g.val(x.Value)
+	vv := g.materialise(g.val(x.Value), st)
 	k, v := mapKV(x.Map.Type())
 	ks, vs := g.ctx.sortOf(k), g.ctx.sortOf(v)
 	key := kv.T
@@ -1516,7 +1571,7 @@ func (g *gen) convert(x *ssa.Convert, st State, reach string) {
 func (g *gen) ret(x *ssa.Return, st State, reach string) {
 	var vs []Val
 	for _, r := range x.Results {
-		vs = append(vs, g.val(r))
+		vs = append(vs, g.materialise(g.val(r), st))
 	}
-	g.rets = append(g.rets, inlineRet{reach: reach, vals: vs, st: st.clone()})
+	g.rets = append(g.rets, inlineRet{reach: reach, vals: vs, st: st.clone(), blk: x.Block()})
 }
